@@ -529,15 +529,33 @@ func primitivesOf(fn *ssa.Function, depth int) []prim {
 			out = append(out, p)
 			continue
 		}
-		if depth < 1 && cal.Signature.Recv() != nil && fn.Signature.Recv() != nil && sameNamed(cal.Signature.Recv().Type(), fn.Signature.Recv().Type()) {
+		samePkg := cal.Pkg != nil && fn.Pkg != nil && cal.Pkg == fn.Pkg
+		if o := cal.Origin(); o != nil && o.Pkg != nil && fn.Pkg != nil {
+			samePkg = o.Pkg == fn.Pkg || (fn.Origin() != nil && fn.Origin().Pkg == o.Pkg)
+		}
+		if (depth < 1 && cal.Signature.Recv() != nil && fn.Signature.Recv() != nil && sameNamed(cal.Signature.Recv().Type(), fn.Signature.Recv().Type())) || (depth < 3 && samePkg && cal.Signature.Recv() != nil) {
+			// a method of the same type, or of the object of the same package the operation is handed over to (the
+			// generic set behind a facade, the typed store behind the map)
 			if sc := ci.Common().StaticCallee(); sc != nil {
 				if sc.Origin() != nil && sc.Origin().Blocks != nil {
 					sc = sc.Origin() // instances over type parameters are thin wrappers around the generic body
 				}
 				for _, p := range primitivesOf(sc, depth+1) {
+					inner := p.key
 					p.in = ci
 					p.key = nil
-					if len(ci.Common().Args) > 1 {
+					if inner != nil {
+						k := core.Norm(inner)
+						if mi, isMI := inner.(*ssa.MakeInterface); isMI {
+							k = core.Norm(mi.X)
+						}
+						for i, q := range sc.Params {
+							if ssa.Value(q) == k && i < len(ci.Common().Args) {
+								p.key = ci.Common().Args[i]
+							}
+						}
+					}
+					if p.key == nil && len(ci.Common().Args) > 1 {
 						p.key = ci.Common().Args[1]
 					}
 					out = append(out, p)
@@ -585,7 +603,8 @@ func c20Utilities(c *core.Ctx, r *core.Report) {
 		st, _ := T.Underlying().(*types.Struct)
 		okState := st != nil && st.NumFields() > 0
 		hasMutex := false
-		if st != nil {
+		var checkState func(st *types.Struct, depth int)
+		checkState = func(st *types.Struct, depth int) {
 			for i := 0; i < st.NumFields(); i++ {
 				ts := st.Field(i).Type().String()
 				if ts == "sync.Mutex" || ts == "sync.RWMutex" {
@@ -593,11 +612,22 @@ func c20Utilities(c *core.Ctx, r *core.Report) {
 				}
 			}
 			for i := 0; i < st.NumFields(); i++ {
-				ts := st.Field(i).Type().String()
+				ft := st.Field(i).Type()
+				ts := ft.String()
 				if ts != "sync.Map" && ts != "sync.Mutex" && ts != "sync.RWMutex" && !hasMutex {
+					// ... or in an unexported object of its own package that does
+					if n := core.NamedOf(derefType(ft)); n != nil && depth < 2 && n.Obj().Pkg() == T.Obj().Pkg() && !n.Obj().Exported() {
+						if inner, isStruct := n.Underlying().(*types.Struct); isStruct && inner.NumFields() > 0 {
+							checkState(inner, depth+1)
+							continue
+						}
+					}
 					okState = false
 				}
 			}
+		}
+		if st != nil {
+			checkState(st, 0)
 		}
 		r.Check(okState, "C20.R5", "state:"+s.typ, c.Pos(T.Obj().Pos()), "the concurrent utility keeps its state in a sync.Map (or behind a mutex)")
 		for _, w := range s.methods {
